@@ -81,29 +81,6 @@ theorem mean_cell (sqrt : Rat → Rat) (a : Arr) (t : List Arr) (r : Arr) (i : N
 
 /-! ### weighted sums -/
 
-/-- an input array times its weight -/
-def scaleArr (w : Num) (b : Arr) : Arr := b.mapCells (Cell.sc (· * w.val))
-
-/-- `weightedAcc` is the fold of additions over the scaled inputs -/
-theorem weightedAcc_eq_foldArr (w : Num) (wr : List Num) (a : Arr) (as : List Arr) (dt : DType) (hlen : wr.length = as.length) :
-    weightedAcc (w :: wr) (a :: as) dt = foldArr (Cell.bin (· + ·)) dt (scaleArr w a) (List.zipWith scaleArr wr as) := by
-  simp only [weightedAcc, foldArr]
-  have h0 : (⟨dt, a.shape, a.cells.map (Cell.sc (· * w.val))⟩ : Arr) = { scaleArr w a with dtype := dt } := by
-    simp [scaleArr, Arr.mapCells]
-  rw [h0]
-  generalize ({ scaleArr w a with dtype := dt } : Arr) = acc
-  induction as generalizing wr acc with
-  | nil => cases wr <;> rfl
-  | cons b as ih =>
-    cases wr with
-    | nil => simp at hlen
-    | cons w2 wr2 =>
-      simp only [List.zip_cons_cons, List.foldl_cons, List.zipWith_cons_cons]
-      exact ih wr2 (by simpa using hlen) _
-
-theorem scaleArr_getElem? (w : Num) (b : Arr) (i : Nat) : (scaleArr w b).cells[i]? = (b.cells[i]?).map (Cell.sc (· * w.val)) := by
-  simp [scaleArr, Arr.mapCells]
-
 /-- what `weightedAcc` leaves in cell `i`: missing iff some input is missing there, else the weighted sum of the column -/
 theorem weightedAcc_cell (w : Num) (wr : List Num) (a : Arr) (as : List Arr) (dt : DType) (i : Nat) (hlen : wr.length = as.length)
     (hi : ∀ x ∈ a :: as, i < x.cells.length) :
